@@ -67,6 +67,36 @@ pub struct WCase {
     pub sync_bytes: Vec<Vec<u8>>,
     pub sync_payload: Vec<Option<Vec<u8>>>,
     pub sync_log: Vec<Vec<String>>,
+    /// Scripts with rejected records (accept*, reject, accept*, …, finish) built from this document's
+    /// first records; script 0 is the whole document (`content`).
+    pub rejects: Vec<RScript>,
+}
+
+/// What the functions that issue the calls see: a document or one of its reject scripts.
+pub struct View<'a> {
+    pub format: Format,
+    pub content: &'a Content,
+    pub flush_every: usize,
+}
+
+/// What the synchronous writer did with one call sequence.
+pub struct SyncOut {
+    pub calls: Calls,
+    pub bytes: Vec<u8>,
+    pub payload: Option<Vec<u8>>,
+    pub log: Vec<String>,
+    /// The sync reader reads the sync writer's output to EOF.
+    pub readable: bool,
+}
+
+pub struct RScript {
+    /// `accept-reject-accept`, `reject-first`, `reject-last`, `two-rejects`, `alternating`.
+    pub shape: &'static str,
+    /// Per API (same index as `WCase::apis`): why the first rejected record of the list is rejected.
+    pub cause: Vec<String>,
+    pub content: Content,
+    /// Per API.
+    pub sync: Vec<SyncOut>,
 }
 
 fn fail(what: &str, name: &str, e: impl std::fmt::Display) -> ! {
@@ -100,8 +130,11 @@ pub fn make_wcase(doc: &Doc) -> Option<WCase> {
             let bam: Vec<bam::Record> = r.records().collect::<io::Result<_>>().unwrap_or_else(|e| fail("read", name, e));
             let mut r = bam::io::Reader::new(b);
             let _ = r.read_header();
-            let bufs = r.record_bufs(&header).collect::<io::Result<_>>().unwrap_or_else(|e| fail("read", name, e));
-            (Content::Aln { header, bufs, bam, sam: Vec::new() }, vec![0, 1], Class::Bgzf)
+            let bufs: Vec<sam::alignment::RecordBuf> = r.record_bufs(&header).collect::<io::Result<_>>().unwrap_or_else(|e| fail("read", name, e));
+            {
+                let sam = lazy_sam(&header, &bufs);
+                (Content::Aln { header, bufs, bam, sam }, vec![0, 1, 2, 3], Class::Bgzf)
+            }
         }
         Format::Sam | Format::SamGz => {
             let text: Vec<u8> = if f == Format::SamGz { doc.inner.as_ref()?.bytes.to_vec() } else { b.to_vec() };
@@ -111,7 +144,7 @@ pub fn make_wcase(doc: &Doc) -> Option<WCase> {
             let mut r = sam::io::Reader::new(&text[..]);
             let _ = r.read_header();
             let bufs = r.record_bufs(&header).collect::<io::Result<_>>().unwrap_or_else(|e| fail("read", name, e));
-            (Content::Aln { header, bufs, bam: Vec::new(), sam }, vec![0, 1], if f == Format::Sam { Class::Plain } else { Class::Bgzf })
+            (Content::Aln { header, bufs, bam: Vec::new(), sam }, vec![0, 1, 2], if f == Format::Sam { Class::Plain } else { Class::Bgzf })
         }
         Format::Cram => {
             let repo = vnd::records::repository();
@@ -128,7 +161,7 @@ pub fn make_wcase(doc: &Doc) -> Option<WCase> {
             let mut r = vcf::io::Reader::new(&text[..]);
             let _ = r.read_header();
             let bufs = r.record_bufs(&header).collect::<io::Result<_>>().unwrap_or_else(|e| fail("read", name, e));
-            (Content::Var { header, bufs, vcf, bcf: Vec::new() }, vec![0, 1], if f == Format::Vcf { Class::Plain } else { Class::Bgzf })
+            (Content::Var { header, bufs, vcf, bcf: Vec::new() }, vec![0, 1, 2], if f == Format::Vcf { Class::Plain } else { Class::Bgzf })
         }
         Format::Bcf => {
             let mut r = bcf::io::Reader::new(b);
@@ -137,7 +170,7 @@ pub fn make_wcase(doc: &Doc) -> Option<WCase> {
             let mut r = bcf::io::Reader::new(b);
             let _ = r.read_header();
             let bufs = r.record_bufs(&header).collect::<io::Result<_>>().unwrap_or_else(|e| fail("read", name, e));
-            (Content::Var { header, bufs, vcf: Vec::new(), bcf }, vec![0, 1], Class::Bgzf)
+            (Content::Var { header, bufs, vcf: Vec::new(), bcf }, vec![0, 1, 2], Class::Bgzf)
         }
         Format::Fasta => {
             // the corpus name carries the line width ("fasta-w13-crlf"); the writer emits LF only
@@ -177,12 +210,29 @@ pub fn make_wcase(doc: &Doc) -> Option<WCase> {
         sync_bytes: Vec::new(),
         sync_payload: Vec::new(),
         sync_log: Vec::new(),
+        rejects: Vec::new(),
     };
+    case.rejects = build_rejects(&case, doc);
     case.recompute();
     Some(case)
 }
 
 impl WCase {
+    pub fn view(&self) -> View<'_> {
+        View { format: self.format, content: &self.content, flush_every: self.flush_every }
+    }
+
+    fn sync_out(&self, content: &Content, api: u8) -> SyncOut {
+        let (calls, bytes) = sync_write_v(&View { format: self.format, content, flush_every: self.flush_every }, api);
+        let payload = match self.class {
+            Class::Bgzf => payload_of(&bytes).ok().map(|x| x.0),
+            _ => None,
+        };
+        let log = vnd::read_log(self.format, &bytes[..], &read_opts(self.format, bytes.len()));
+        let readable = log.last().map(|l| vnd::is_end_eof(l)).unwrap_or(false) && (self.class != Class::Bgzf || payload.is_some());
+        SyncOut { calls, bytes, payload, log, readable }
+    }
+
     /// (Re)computes what the synchronous writer produces for the current `flush_every`.
     pub fn recompute(&mut self) {
         let name = self.name.clone();
@@ -190,22 +240,32 @@ impl WCase {
         self.sync_payload.clear();
         self.sync_log.clear();
         for &api in &self.apis.clone() {
-            let (res, bytes) = sync_write(self, api);
-            if let Some((call, Err(e))) = res.iter().find(|(_, r)| r.is_err()) {
+            let o = self.sync_out(&self.content, api);
+            if let Some((call, Err(e))) = o.calls.iter().find(|(_, r)| r.is_err()) {
                 fail(&format!("sync writer call {call} failed for"), &name, e);
             }
-            let payload = match self.class {
-                Class::Bgzf => Some(payload_of(&bytes).unwrap_or_else(|e| fail("sync output is not BGZF", &name, e)).0),
-                _ => None,
-            };
-            let log = vnd::read_log(self.format, &bytes[..], &read_opts(self.format, bytes.len()));
-            if !log.last().map(|l| vnd::is_end_eof(l)).unwrap_or(false) {
-                fail("sync reader rejects the sync writer's output of", &name, format!("{:?}", log.last()));
+            if !o.readable {
+                fail("sync reader rejects the sync writer's output of", &name, format!("{:?}", o.log.last()));
             }
-            self.sync_bytes.push(bytes);
-            self.sync_payload.push(payload);
-            self.sync_log.push(log);
+            self.sync_bytes.push(o.bytes);
+            self.sync_payload.push(o.payload);
+            self.sync_log.push(o.log);
         }
+        let mut rejects = std::mem::take(&mut self.rejects);
+        for r in &mut rejects {
+            r.sync = self.apis.iter().map(|&api| self.sync_out(&r.content, api)).collect();
+            for (ai, o) in r.sync.iter().enumerate() {
+                // header and shutdown must work; what the sync writer leaves behind after a rejected record
+                // is the sync round-trip checks' subject (G2) — here it is only reported
+                if let Some((call, Err(e))) = o.calls.iter().find(|(c, r)| r.is_err() && (*c == "write_header" || *c == "flush")) {
+                    fail(&format!("sync writer call {call} failed in reject script {} of", r.shape), &name, e);
+                }
+                if !o.readable {
+                    eprintln!("[C16] note: sync {} writer output of {name} script {} api {} is not readable by the sync reader: {:?}", self.format, r.shape, self.apis[ai], o.log.last());
+                }
+            }
+        }
+        self.rejects = rejects;
     }
 }
 
@@ -267,8 +327,10 @@ macro_rules! aln_body {
         let Content::Aln { header, bufs, $lazy, .. } = &$case.content else { unreachable!() };
         if $api == 0 {
             records_body!($m, $w, $res, $case, header, bufs, write_alignment_record);
-        } else {
+        } else if $api == 1 {
             records_body!($m, $w, $res, $case, header, $lazy, write_record);
+        } else {
+            records_body!($m, $w, $res, $case, header, $lazy, write_alignment_record);
         }
     }};
 }
@@ -278,8 +340,10 @@ macro_rules! var_body {
         let Content::Var { header, bufs, $lazy, .. } = &$case.content else { unreachable!() };
         if $api == 0 {
             records_body!($m, $w, $res, $case, header, bufs, write_variant_record);
-        } else {
+        } else if $api == 1 {
             records_body!($m, $w, $res, $case, header, $lazy, write_record);
+        } else {
+            records_body!($m, $w, $res, $case, header, $lazy, write_variant_record);
         }
     }};
 }
@@ -294,11 +358,20 @@ fn abgzf<W: AsyncWrite + Unpin>(sink: W, workers: usize) -> bgzf::r#async::io::W
 
 /// The synchronous twin: same calls, `finish` where the async side calls `shutdown`.
 pub fn sync_write(case: &WCase, api: u8) -> (Calls, Vec<u8>) {
+    sync_write_v(&case.view(), api)
+}
+
+pub fn sync_write_v(case: &View<'_>, api: u8) -> (Calls, Vec<u8>) {
     let mut res: Calls = Vec::new();
     let out: Vec<u8> = match case.format {
         Format::Bam => {
             let mut w = bam::io::Writer::from(bgzf::io::Writer::new(Vec::new()));
-            aln_body!(sync, w, res, case, api, bam);
+            if api == 3 {
+                let Content::Aln { header, sam, .. } = &case.content else { unreachable!() };
+                records_body!(sync, w, res, case, header, sam, write_alignment_record);
+            } else {
+                aln_body!(sync, w, res, case, api, bam);
+            }
             finish_bgzf(&mut res, w.into_inner())
         }
         Format::Sam => {
@@ -411,11 +484,20 @@ fn finish_bgzf(res: &mut Calls, w: bgzf::io::Writer<Vec<u8>>) -> Vec<u8> {
 /// The async driver. `shutdown()` is the writer's own where it has one, else the sink's (through
 /// `get_mut()`), as a caller has to do.
 pub async fn async_write<W: AsyncWrite + Unpin>(case: &WCase, api: u8, sink: W, workers: usize) -> Calls {
+    async_write_v(&case.view(), api, sink, workers).await
+}
+
+pub async fn async_write_v<W: AsyncWrite + Unpin>(case: &View<'_>, api: u8, sink: W, workers: usize) -> Calls {
     let mut res: Calls = Vec::new();
     match case.format {
         Format::Bam => {
             let mut w = bam::r#async::io::Writer::from(abgzf(sink, workers));
-            aln_body!(asyn, w, res, case, api, bam);
+            if api == 3 {
+                let Content::Aln { header, sam, .. } = &case.content else { unreachable!() };
+                records_body!(asyn, w, res, case, header, sam, write_alignment_record);
+            } else {
+                aln_body!(asyn, w, res, case, api, bam);
+            }
             res.push(("shutdown", es(w.shutdown().await)));
         }
         Format::Sam => {
@@ -522,7 +604,10 @@ fn api_name(case: &WCase, api: u8) -> &'static str {
     match (&case.content, api) {
         (Content::Aln { .. }, 0) => "write_alignment_record",
         (Content::Var { .. }, 0) => "write_variant_record",
-        (Content::Aln { .. } | Content::Var { .. }, _) => "write_record",
+        (Content::Aln { .. } | Content::Var { .. }, 1) => "write_record",
+        (Content::Aln { .. }, 2) => "write_alignment_record(lazy)",
+        (Content::Aln { .. }, _) => "write_alignment_record(lazy-sam)",
+        (Content::Var { .. }, _) => "write_variant_record(lazy)",
         (Content::Fasta { .. } | Content::Fastq(_), _) => "write_record",
         _ => "write_index",
     }
@@ -535,17 +620,34 @@ pub fn workers_apply(f: Format) -> bool {
 /// E1 body: document x API x worker count x sink mode, then every poll decision / schedule.
 pub fn writer_body(ch: &Chooser, cases: &[&WCase], workers: &[usize], modes: &[PollMode]) -> Outcome {
     let case = *ch.pick_free("doc", cases);
+    let si = ch.free("script", 1 + case.rejects.len());
     let ai = ch.free("api", case.apis.len());
     let api = case.apis[ai];
+    // script 0: the whole document, every call Ok; else a reject script with the sync outcome per call
+    let rej = si.checked_sub(1).map(|k| &case.rejects[k]);
+    let content = rej.map(|r| &r.content).unwrap_or(&case.content);
+    let view = View { format: case.format, content, flush_every: case.flush_every };
+    let (sync_bytes, sync_payload, sync_log, sync_calls, sync_readable) = match rej {
+        None => (&case.sync_bytes[ai], &case.sync_payload[ai], &case.sync_log[ai], None, true),
+        Some(r) => (&r.sync[ai].bytes, &r.sync[ai].payload, &r.sync[ai].log, Some(&r.sync[ai].calls), r.sync[ai].readable),
+    };
+    let sfx = match rej {
+        None => String::new(),
+        Some(r) => format!(" script=reject-{} cause={}", r.shape, r.cause[ai]),
+    };
     let w = if workers_apply(case.format) { *ch.pick_free("workers", workers) } else { 1 };
     let mode = ch.pick_free("mode", modes).clone();
     let fmt = case.format.name();
     let aname = api_name(case, api);
     let describe = || {
         format!(
-            "async {} writer content-of={} api={aname} flush_every={}{} sink=PollWriter({mode:?})",
+            "async {} writer content-of={} api={aname}{} flush_every={}{} sink=PollWriter({mode:?})",
             case.format,
             case.name,
+            match sync_calls {
+                None => String::new(),
+                Some(c) => format!("{sfx} calls(sync outcome)=[{}]", c.iter().map(|(n, r)| format!("{n}:{}", if r.is_ok() { "Ok" } else { "Err" })).collect::<Vec<_>>().join(" ")),
+            },
             case.flush_every,
             if workers_apply(case.format) { format!(" workers={w}") } else { String::new() }
         )
@@ -553,13 +655,13 @@ pub fn writer_body(ch: &Chooser, cases: &[&WCase], workers: &[usize], modes: &[P
     let sink = PollWriter::new(mode.clone(), Some(ch.clone()));
     let sink2 = sink.clone();
     let mut cfg = RtConfig::new(w, CostModel::Delay);
-    cfg.horizon = 50_000 + 16 * case.sync_bytes[ai].len();
-    let caught = vmc::catch(|| vrt::run(ch, cfg, || vrt::block_on(async_write(case, api, sink2, w))));
+    cfg.horizon = 50_000 + 16 * sync_bytes.len();
+    let caught = vmc::catch(|| vrt::run(ch, cfg, || vrt::block_on(async_write_v(&view, api, sink2, w))));
     let (calls, info) = match caught {
         Ok(x) => x,
         Err((msg, file)) => {
             return Err(Violation::new(
-                format!("fmt-writer format={fmt} api={aname} outcome=panic msg={} file={}", vmc::normalise_msg(&msg), file),
+                format!("fmt-writer format={fmt} api={aname}{sfx} outcome=panic msg={} file={}", vmc::normalise_msg(&msg), file),
                 describe(),
                 "no panic",
                 format!("panic: {msg} in {file}"),
@@ -573,32 +675,65 @@ pub fn writer_body(ch: &Chooser, cases: &[&WCase], workers: &[usize], modes: &[P
         ch.tag("two-or-more-deflate-tasks");
     }
     check_info(&info, &describe).map_err(|mut v| {
-        v.fingerprint = format!("fmt-writer format={fmt} api={aname} {}", v.fingerprint);
+        v.fingerprint = format!("fmt-writer format={fmt} api={aname}{sfx} {}", v.fingerprint);
         v
     })?;
     let Some(calls) = calls else {
-        return Err(Violation::new(format!("fmt-writer format={fmt} api={aname} outcome=aborted-without-cause"), describe(), "completes", "unwound"));
+        return Err(Violation::new(format!("fmt-writer format={fmt} api={aname}{sfx} outcome=aborted-without-cause"), describe(), "completes", "unwound"));
     };
-    if let Some((call, Err(e))) = calls.iter().find(|(_, r)| r.is_err()) {
-        let kind = e.split(':').next().unwrap_or("");
-        return Err(Violation::new(
-            format!("fmt-writer format={fmt} api={aname} call={call} symptom=unexpected-error kind={kind}"),
-            describe(),
-            "every call Ok (as with the sync writer)",
-            e.clone(),
-        ));
+    match sync_calls {
+        None => {
+            if let Some((call, Err(e))) = calls.iter().find(|(_, r)| r.is_err()) {
+                let kind = e.split(':').next().unwrap_or("");
+                return Err(Violation::new(
+                    format!("fmt-writer format={fmt} api={aname} call={call} symptom=unexpected-error kind={kind}"),
+                    describe(),
+                    "every call Ok (as with the sync writer)",
+                    e.clone(),
+                ));
+            }
+        }
+        Some(want) => {
+            // same calls, same Ok / Err(kind) per call as the synchronous writer
+            let show = |c: &Calls| c.iter().map(|(n, r)| format!("{n}:{}", match r { Ok(()) => "Ok".to_string(), Err(e) => format!("Err({})", e.split(':').next().unwrap_or("")) })).collect::<Vec<_>>().join(" ");
+            for (k, ((call, a), (wcall, e))) in calls.iter().zip(want.iter()).enumerate() {
+                let symptom = match (e, a) {
+                    _ if call != wcall => "call-sequence-differs",
+                    (Ok(()), Err(_)) => "async-rejects-what-sync-accepts",
+                    (Err(_), Ok(())) => "async-accepts-what-sync-rejects",
+                    (Err(x), Err(y)) if x.split(':').next() != y.split(':').next() => "error-kind-differs",
+                    (Err(x), Err(y)) => {
+                        if x != y {
+                            ch.tag("reject-error-message-differs");
+                        }
+                        ch.tag("rejected-call-compared");
+                        continue;
+                    }
+                    _ => continue,
+                };
+                return Err(Violation::new(
+                    format!("fmt-writer format={fmt} api={aname}{sfx} call={call} symptom={symptom}"),
+                    describe(),
+                    format!("call {k}: {}", show(want)),
+                    format!("call {k}: {}", show(&calls)),
+                ));
+            }
+            if calls.len() != want.len() {
+                return Err(Violation::new(format!("fmt-writer format={fmt} api={aname}{sfx} symptom=call-sequence-differs"), describe(), show(want), show(&calls)));
+            }
+            ch.tag("reject-script");
+        }
     }
     let bytes = sink.bytes();
     ch.obs_hash(&bytes);
     // the sequence of accepted sizes distinguishes executions of uncompressed writers
     ch.obs_hash((st_polls, sink.state.lock().unwrap().flushes));
     ch.desc(|| format!("{} schedule: {}", describe(), info.schedule_string()));
-    let sync_bytes = &case.sync_bytes[ai];
     match case.class {
         Class::Plain => {
             if &bytes != sync_bytes {
                 return Err(Violation::new(
-                    format!("fmt-writer format={fmt} api={aname} symptom=bytes-differ-from-sync"),
+                    format!("fmt-writer format={fmt} api={aname}{sfx} symptom=bytes-differ-from-sync"),
                     describe(),
                     format!("{} bytes, identical to the sync writer's", sync_bytes.len()),
                     vmc::diff_bytes(sync_bytes, &bytes),
@@ -611,17 +746,18 @@ pub fn writer_body(ch: &Chooser, cases: &[&WCase], workers: &[usize], modes: &[P
                 Ok(x) => x,
                 Err(e) => {
                     return Err(Violation::new(
-                        format!("fmt-writer format={fmt} api={aname} symptom=output-not-wellformed-bgzf"),
+                        format!("fmt-writer format={fmt} api={aname}{sfx} symptom=output-not-wellformed-bgzf"),
                         format!("{} schedule: {}", describe(), info.schedule_string()),
                         "well-formed BGZF",
                         e,
                     ));
                 }
             };
-            let want = case.sync_payload[ai].as_ref().unwrap();
-            if &payload != want {
+            let empty = Vec::new();
+            let want = sync_payload.as_ref().unwrap_or(&empty);
+            if sync_payload.is_some() && &payload != want {
                 return Err(Violation::new(
-                    format!("fmt-writer format={fmt} api={aname} symptom=payload-differs-from-sync"),
+                    format!("fmt-writer format={fmt} api={aname}{sfx} symptom=payload-differs-from-sync"),
                     format!("{} schedule: {}", describe(), info.schedule_string()),
                     format!("{} payload bytes, identical to the sync writer's", want.len()),
                     vmc::diff_bytes(want, &payload),
@@ -640,18 +776,21 @@ pub fn writer_body(ch: &Chooser, cases: &[&WCase], workers: &[usize], modes: &[P
     }
     if case.class != Class::Plain {
         let log = vnd::read_log(case.format, &bytes[..], &read_opts(case.format, bytes.len()));
-        let want = &case.sync_log[ai];
+        let want = sync_log;
         if &log != want {
             let i = log.iter().zip(want.iter()).position(|(a, b)| a != b).unwrap_or(log.len().min(want.len()));
             let kind = want.get(i).or(log.get(i)).map(|l| l.split(['[', ':']).next().unwrap_or("").to_string()).unwrap_or_default();
             return Err(Violation::new(
-                format!("fmt-writer format={fmt} api={aname} symptom=decoded-differs-from-sync line={kind}"),
+                format!("fmt-writer format={fmt} api={aname}{sfx} symptom=decoded-differs-from-sync line={kind}"),
                 format!("{} schedule: {}", describe(), info.schedule_string()),
                 format!("line {i}: {:?}", want.get(i)),
                 format!("line {i}: {:?}", log.get(i)),
             ));
         }
         ch.tag("decoded-equal-to-sync-writer");
+        if !sync_readable {
+            ch.tag("sync-output-itself-not-readable");
+        }
     }
     let st = sink.state.lock().unwrap();
     if st.shutdowns == 0 {
@@ -664,4 +803,473 @@ pub fn writer_body(ch: &Chooser, cases: &[&WCase], workers: &[usize], modes: &[P
         ch.tag("write-after-sink-shutdown");
     }
     Ok(())
+}
+
+// ------------------------------------------------------------------------------------------ reject scripts
+//
+// Records the writer must reject, each failing at a different depth of the encoder, interleaved with
+// accepted ones: accept*, reject, accept*, (reject, accept)…, finish. Candidates are generated liberally;
+// a candidate is used iff the SYNCHRONOUS writer of the format rejects it (probed at start-up), so the
+// set follows whatever the encoders validate. The synchronous writer given the same calls is the
+// specification for the outcome of every call and for the output.
+
+/// One SAM line per record, as lazy records.
+fn lazy_sam(header: &sam::Header, bufs: &[sam::alignment::RecordBuf]) -> Vec<sam::Record> {
+    bufs.iter()
+        .filter_map(|b| {
+            let line = sam_line(header, b)?;
+            sam::Record::try_from(&line[..]).ok()
+        })
+        .collect()
+}
+
+fn sam_line(header: &sam::Header, b: &sam::alignment::RecordBuf) -> Option<Vec<u8>> {
+    let mut w = sam::io::Writer::new(Vec::new());
+    w.write_alignment_record(header, b).ok()?;
+    let mut line = w.into_inner();
+    while line.last() == Some(&b'\n') {
+        line.pop();
+    }
+    Some(line)
+}
+
+fn with_column(line: &[u8], col: usize, value: &str) -> Vec<u8> {
+    let mut cols: Vec<Vec<u8>> = line.split(|&b| b == b'\t').map(|c| c.to_vec()).collect();
+    if col < cols.len() {
+        cols[col] = value.as_bytes().to_vec();
+    } else {
+        cols.push(value.as_bytes().to_vec());
+    }
+    cols.join(&b'\t')
+}
+
+/// The header plus reference sequences `x2 … x7`, so that reference sequence id 7 exists.
+fn rich_sam_header(header: &sam::Header) -> Option<sam::Header> {
+    let mut w = sam::io::Writer::new(Vec::new());
+    w.write_header(header).ok()?;
+    let mut text = w.into_inner();
+    for i in header.reference_sequences().len()..8 {
+        text.extend_from_slice(format!("@SQ\tSN:x{i}\tLN:100\n").as_bytes());
+    }
+    sam::io::Reader::new(&text[..]).read_header().ok()
+}
+
+type Labelled<T> = Vec<(&'static str, T)>;
+
+fn aln_candidates(g: &sam::alignment::RecordBuf) -> Labelled<sam::alignment::RecordBuf> {
+    use noodles_core::Position;
+    use sam::alignment::{
+        record::{Flags, data::field::Tag},
+        record_buf::{QualityScores, Sequence, data::field::Value},
+    };
+    let mut v: Labelled<sam::alignment::RecordBuf> = Vec::new();
+    let mut add = |label: &'static str, f: &dyn Fn(&mut sam::alignment::RecordBuf)| {
+        let mut c = g.clone();
+        f(&mut c);
+        v.push((label, c));
+    };
+    // in encoder order of the BAM record: ref_id, pos, l_read_name, …, next_ref_id, …, name, cigar, seq, qual, data
+    add("reference-sequence-id-not-in-header", &|c| *c.reference_sequence_id_mut() = Some(7));
+    add("alignment-start-beyond-i32", &|c| *c.alignment_start_mut() = Position::new((1usize << 31) + 5));
+    add("name-300-bytes", &|c| *c.name_mut() = Some("n".repeat(300).into()));
+    add("mate-reference-sequence-id-not-in-header", &|c| {
+        *c.flags_mut() |= Flags::SEGMENTED | Flags::FIRST_SEGMENT;
+        *c.mate_reference_sequence_id_mut() = Some(7);
+        *c.mate_alignment_start_mut() = Position::new(9);
+    });
+    add("mate-alignment-start-beyond-i32", &|c| {
+        *c.flags_mut() |= Flags::SEGMENTED | Flags::FIRST_SEGMENT;
+        *c.mate_reference_sequence_id_mut() = Some(0);
+        *c.mate_alignment_start_mut() = Position::new((1usize << 31) + 5);
+    });
+    add("name-with-space", &|c| *c.name_mut() = Some("bad name".into()));
+    add("name-with-at", &|c| *c.name_mut() = Some("@bad".into()));
+    add("sequence-invalid-base", &|c| {
+        let n = c.sequence().len();
+        *c.sequence_mut() = Sequence::from(vec![b'!'; n]);
+    });
+    add("quality-scores-shorter-than-sequence", &|c| {
+        let n = c.sequence().len();
+        *c.quality_scores_mut() = QualityScores::from(vec![30; n.saturating_sub(1).max(1)]);
+    });
+    add("quality-score-200", &|c| {
+        let n = c.sequence().len();
+        *c.quality_scores_mut() = QualityScores::from(vec![200; n]);
+    });
+    add("data-hex-odd-length", &|c| {
+        c.data_mut().insert(Tag::new(b'X', b'H'), Value::Hex("ABC".into()));
+    });
+    add("data-hex-not-hex", &|c| {
+        c.data_mut().insert(Tag::new(b'X', b'H'), Value::Hex("ZZ".into()));
+    });
+    add("data-string-with-tab", &|c| {
+        c.data_mut().insert(Tag::new(b'X', b'Z'), Value::String("a\tb".into()));
+    });
+    add("data-character-tab", &|c| {
+        c.data_mut().insert(Tag::new(b'X', b'A'), Value::Character(b'\t'));
+    });
+    v
+}
+
+fn sam_lazy_candidates(header: &sam::Header, g: &sam::alignment::RecordBuf) -> Labelled<sam::Record> {
+    let Some(line) = sam_line(header, g) else { return Vec::new() };
+    let n_cols = line.split(|&b| b == b'\t').count();
+    let qual = "I".repeat(g.sequence().len().saturating_sub(1).max(1));
+    let subs: Vec<(&'static str, usize, &str)> = vec![
+        ("flags-not-a-number", 1, "x"),
+        ("reference-sequence-name-not-in-header", 2, "nope"),
+        ("alignment-start-not-a-number", 3, "abc"),
+        ("mapping-quality-999", 4, "999"),
+        ("cigar-invalid-op", 5, "4Q"),
+        ("mate-reference-sequence-name-not-in-header", 6, "nope"),
+        ("mate-alignment-start-not-a-number", 7, "x"),
+        ("template-length-not-a-number", 8, "x"),
+        ("sequence-invalid-base", 9, "!!!!!!!!"),
+        ("quality-scores-shorter-than-sequence", 10, &qual),
+        ("data-integer-not-a-number", n_cols, "XX:i:abc"),
+        ("data-unknown-type", n_cols, "XX:Q:1"),
+        ("data-hex-odd-length", n_cols, "XX:H:ABC"),
+    ];
+    subs.into_iter().filter_map(|(label, col, val)| sam::Record::try_from(&with_column(&line, col, val)[..]).ok().map(|r| (label, r))).collect()
+}
+
+/// Lazy BAM records that are invalid under `header`: written under a richer header, or raw bytes of a
+/// good record with one field corrupted, read back with the sync reader.
+fn bam_lazy_candidates(header: &sam::Header, g: &sam::alignment::RecordBuf) -> Labelled<bam::Record> {
+    let mut out: Labelled<bam::Record> = Vec::new();
+    let Some(rich) = rich_sam_header(header) else { return out };
+    let read_last = |bytes: &[u8]| -> Option<bam::Record> {
+        let mut r = bam::io::Reader::from(bytes);
+        r.read_header().ok()?;
+        let mut last = None;
+        for rec in r.records() {
+            last = Some(rec.ok()?);
+        }
+        last
+    };
+    let write_raw = |rec: &sam::alignment::RecordBuf| -> Option<Vec<u8>> {
+        let mut w = bam::io::Writer::from(Vec::new());
+        w.write_header(&rich).ok()?;
+        w.write_alignment_record(&rich, rec).ok()?;
+        Some(w.into_inner())
+    };
+    for (label, c) in aln_candidates(g) {
+        if label.contains("not-in-header") {
+            if let Some(rec) = write_raw(&c).and_then(|b| read_last(&b)) {
+                out.push((label, rec));
+            }
+        }
+    }
+    // raw corruption of the good record: block = [block_size u32][32 fixed bytes][name][cigar][seq][qual][data]
+    if let Some(bytes) = write_raw(g) {
+        let name_len = g.name().map(|n| n.len() + 1).unwrap_or(2);
+        let n_cigar = g.cigar().as_ref().len();
+        let l_seq = g.sequence().len();
+        let mut w = bam::io::Writer::from(Vec::new());
+        let _ = w.write_header(&rich);
+        let rec_start = w.into_inner().len();
+        let cigar_at = rec_start + 4 + 32 + name_len;
+        let data_at = cigar_at + 4 * n_cigar + l_seq.div_ceil(2) + l_seq;
+        if n_cigar > 0 && cigar_at < bytes.len() {
+            let mut b = bytes.clone();
+            b[cigar_at] |= 0x0f; // op kind 15 does not exist
+            if let Some(rec) = read_last(&b) {
+                out.push(("cigar-op-kind-15", rec));
+            }
+        }
+        if data_at + 2 < bytes.len() {
+            let mut b = bytes.clone();
+            b[data_at + 2] = b'?'; // type of the first data field
+            if let Some(rec) = read_last(&b) {
+                out.push(("data-unknown-type", rec));
+            }
+        }
+    }
+    out
+}
+
+fn vcf_text(header: &vcf::Header) -> Option<Vec<u8>> {
+    let mut w = vcf::io::Writer::new(Vec::new());
+    w.write_header(header).ok()?;
+    Some(w.into_inner())
+}
+
+/// The header plus a contig, a FILTER, an INFO and a FORMAT definition the writer's header lacks.
+fn rich_vcf_text(header: &vcf::Header) -> Option<Vec<u8>> {
+    let text = vcf_text(header)?;
+    let at = text.windows(6).position(|w| w == b"#CHROM")?;
+    let mut out = text[..at].to_vec();
+    out.extend_from_slice(
+        b"##contig=<ID=sqX,length=100>\n##FILTER=<ID=fx,Description=\"x\">\n##INFO=<ID=IX,Number=1,Type=Integer,Description=\"x\">\n##FORMAT=<ID=FX,Number=1,Type=Integer,Description=\"x\">\n",
+    );
+    out.extend_from_slice(&text[at..]);
+    Some(out)
+}
+
+fn vcf_line(header: &vcf::Header, b: &vcf::variant::RecordBuf) -> Option<Vec<u8>> {
+    let mut w = vcf::io::Writer::new(Vec::new());
+    w.write_variant_record(header, b).ok()?;
+    let mut line = w.into_inner();
+    while line.last() == Some(&b'\n') {
+        line.pop();
+    }
+    Some(line)
+}
+
+/// (label, line) candidates: columns of the good line replaced by values that are undefined in the
+/// writer's header (but defined in the rich one) or malformed.
+fn var_lines(header: &vcf::Header, g: &vcf::variant::RecordBuf) -> Vec<(&'static str, Vec<u8>)> {
+    let Some(line) = vcf_line(header, g) else { return Vec::new() };
+    let n_cols = line.split(|&b| b == b'\t').count();
+    let mut v: Vec<(&'static str, Vec<u8>)> = vec![
+        ("chrom-not-in-header", with_column(&line, 0, "sqX")),
+        ("chrom-with-space", with_column(&line, 0, "sq 0")),
+        ("position-not-a-number", with_column(&line, 1, "abc")),
+        ("id-with-space", with_column(&line, 2, "id 0")),
+        ("reference-base-Z", with_column(&line, 3, "Z")),
+        ("alternate-bases-trailing-comma", with_column(&line, 4, "C,")),
+        ("quality-not-a-number", with_column(&line, 5, "x")),
+        ("filter-not-in-header", with_column(&line, 6, "fx")),
+        ("filter-with-space", with_column(&line, 6, "q 10")),
+        ("info-key-not-in-header", with_column(&line, 7, "IX=5")),
+        ("info-value-not-a-number", with_column(&line, 7, "DP=abc")),
+    ];
+    if n_cols > 9 {
+        let mut l = with_column(&line, 8, "GT:FX");
+        for c in 9..n_cols {
+            l = with_column(&l, c, "0/1:5");
+        }
+        v.push(("format-key-not-in-header", l));
+        let mut l = with_column(&line, 8, "DP:GT");
+        for c in 9..n_cols {
+            l = with_column(&l, c, "5:0/1");
+        }
+        v.push(("format-gt-not-first", l));
+        let mut l = with_column(&line, 8, "GT:DP");
+        for c in 9..n_cols {
+            l = with_column(&l, c, "0/1:abc");
+        }
+        v.push(("sample-value-not-a-number", l));
+        let cols: Vec<&[u8]> = line.split(|&b| b == b'\t').collect();
+        v.push(("sample-column-missing", cols[..n_cols - 1].join(&b'\t')));
+    }
+    v
+}
+
+fn var_candidates(header: &vcf::Header, g: &vcf::variant::RecordBuf) -> (Labelled<vcf::variant::RecordBuf>, Labelled<vcf::Record>, Labelled<bcf::Record>) {
+    let (mut bufs, mut lazy, mut blazy): (Labelled<_>, Labelled<_>, Labelled<_>) = (Vec::new(), Vec::new(), Vec::new());
+    let Some(rich_text) = rich_vcf_text(header) else { return (bufs, lazy, blazy) };
+    let Ok(rich) = vcf::io::Reader::new(&rich_text[..]).read_header() else { return (bufs, lazy, blazy) };
+    for (label, line) in var_lines(header, g) {
+        if let Ok(r) = vcf::Record::try_from(&line[..]) {
+            lazy.push((label, r));
+        }
+        // owned: parsed under the rich header
+        let mut text = rich_text.clone();
+        text.extend_from_slice(&line);
+        text.push(b'\n');
+        let mut r = vcf::io::Reader::new(&text[..]);
+        if r.read_header().is_err() {
+            continue;
+        }
+        let mut rec = vcf::variant::RecordBuf::default();
+        if matches!(r.read_record_buf(&rich, &mut rec), Ok(n) if n > 0) {
+            // lazy BCF: the owned record written under the rich header, read back lazily
+            let mut w = bcf::io::Writer::from(Vec::new());
+            if w.write_header(&rich).is_ok() && w.write_variant_record(&rich, &rec).is_ok() {
+                let raw = w.into_inner();
+                let mut br = bcf::io::Reader::from(&raw[..]);
+                if br.read_header().is_ok() {
+                    if let Some(Ok(b)) = br.records().last() {
+                        blazy.push((label, b));
+                    }
+                }
+            }
+            bufs.push((label, rec));
+        }
+    }
+    // owned records no parser produces
+    let mut c = g.clone();
+    *c.reference_bases_mut() = "Z".into();
+    bufs.push(("reference-base-Z(set)", c));
+    let mut c = g.clone();
+    *c.reference_sequence_name_mut() = "sq 0".into();
+    bufs.push(("chrom-with-space(set)", c));
+    (bufs, lazy, blazy)
+}
+
+#[derive(Clone, Copy)]
+enum Step {
+    G(usize),
+    R(usize),
+}
+
+fn shapes(n_rej: usize, n_good: usize) -> Vec<(&'static str, Vec<Step>)> {
+    use Step::*;
+    let g = |i: usize| G(i % n_good);
+    let mut v = Vec::new();
+    for k in 0..n_rej {
+        v.push(("accept-reject-accept", vec![g(0), R(k), g(1)]));
+    }
+    let mid = n_rej / 2;
+    v.push(("reject-first", vec![R(mid), g(0), g(1)]));
+    v.push(("reject-last", vec![g(0), g(1), R(mid)]));
+    v.push(("two-rejects", vec![g(0), R(0), R(n_rej - 1), g(1)]));
+    let mut alt = vec![g(0)];
+    for k in 0..n_rej.min(4) {
+        alt.push(R(k));
+        alt.push(g(k + 1));
+    }
+    v.push(("alternating", alt));
+    v
+}
+
+fn lay<T: Clone>(steps: &[Step], good: &[T], rej: &Labelled<T>) -> (Vec<T>, String) {
+    let mut out = Vec::new();
+    let mut cause = String::new();
+    for s in steps {
+        match *s {
+            Step::G(i) => {
+                if !good.is_empty() {
+                    out.push(good[i % good.len()].clone());
+                }
+            }
+            Step::R(k) => {
+                if !rej.is_empty() {
+                    let (label, r) = &rej[k % rej.len()];
+                    if cause.is_empty() {
+                        cause = label.to_string();
+                    }
+                    out.push(r.clone());
+                }
+            }
+        }
+    }
+    if cause.is_empty() {
+        cause = "none".into();
+    }
+    (out, cause)
+}
+
+/// Which corpus documents carry reject scripts: one small record set per format.
+fn carries_rejects(doc: &Doc) -> bool {
+    match doc.format {
+        Format::Bam | Format::Sam | Format::SamGz => doc.set == "mapped",
+        Format::Cram => doc.set == "mapped" || doc.set == "paired",
+        Format::Vcf => doc.set == "two-samples" || doc.set == "sites",
+        Format::VcfGz | Format::Bcf => doc.set == "two-samples",
+        _ => false,
+    }
+}
+
+const MAX_REJECTS: usize = 6;
+
+/// Keeps the candidates the synchronous writer rejects through `api`, at most `MAX_REJECTS`, spread over
+/// the list (the list is in encoder field order, so the kept ones fail at different depths).
+fn probe<T: Clone>(case: &WCase, api: u8, cands: Labelled<T>, wrap: &dyn Fn(Vec<T>) -> Content) -> Labelled<T> {
+    let mut kept: Labelled<T> = Vec::new();
+    for (label, c) in cands {
+        let content = wrap(vec![c.clone()]);
+        // a candidate on which the sync writer panics is neither accepted nor rejected: reported, not used
+        let calls = match vmc::catch(|| sync_write_v(&View { format: case.format, content: &content, flush_every: 0 }, api)) {
+            Ok((calls, _)) => calls,
+            Err((msg, file)) => {
+                eprintln!("[C16] note: sync {} writer PANICS on candidate {label} (api {api}): {msg} in {file}", case.format);
+                continue;
+            }
+        };
+        let rejected = calls.iter().any(|(n, r)| n.starts_with("write_") && *n != "write_header" && r.is_err());
+        if rejected {
+            kept.push((label, c));
+        }
+    }
+    if kept.len() > MAX_REJECTS {
+        let n = kept.len();
+        kept = (0..MAX_REJECTS).map(|i| kept[i * (n - 1) / (MAX_REJECTS - 1)].clone()).collect();
+    }
+    kept
+}
+
+fn build_rejects(case: &WCase, doc: &Doc) -> Vec<RScript> {
+    if !carries_rejects(doc) {
+        return Vec::new();
+    }
+    let mut out = Vec::new();
+    let report = |what: &str, l: &[&'static str]| eprintln!("[C16] reject scripts {}: {what} rejected by the sync writer: {}", case.name, if l.is_empty() { "none".to_string() } else { l.join(" ") });
+    match &case.content {
+        Content::Aln { header, bufs, bam, sam } => {
+            if bufs.len() < 2 {
+                return out;
+            }
+            let good_bufs: Vec<_> = bufs.iter().take(4).cloned().collect();
+            let good_bam: Vec<_> = bam.iter().take(4).cloned().collect();
+            let good_sam: Vec<_> = sam.iter().take(4).cloned().collect();
+            let h = header.clone();
+            let wrap_bufs = |v: Vec<sam::alignment::RecordBuf>| Content::Aln { header: h.clone(), bufs: v, bam: Vec::new(), sam: Vec::new() };
+            let wrap_bam = |v: Vec<bam::Record>| Content::Aln { header: h.clone(), bufs: Vec::new(), bam: v, sam: Vec::new() };
+            let wrap_sam = |v: Vec<sam::Record>| Content::Aln { header: h.clone(), bufs: Vec::new(), bam: Vec::new(), sam: v };
+            // a record with data fields makes the data-level corruptions possible
+            let g = bufs.iter().find(|b| !b.data().is_empty()).unwrap_or(&bufs[0]);
+            let rej_bufs = probe(case, 0, aln_candidates(g), &wrap_bufs);
+            let rej_bam = if case.format == Format::Bam { probe(case, 1, bam_lazy_candidates(header, g), &wrap_bam) } else { Vec::new() };
+            let sam_api = if case.format == Format::Bam { 3 } else { 1 };
+            let rej_sam = if case.apis.contains(&sam_api) { probe(case, sam_api, sam_lazy_candidates(header, g), &wrap_sam) } else { Vec::new() };
+            report("owned records", &rej_bufs.iter().map(|x| x.0).collect::<Vec<_>>());
+            if case.format == Format::Bam {
+                report("lazy BAM records", &rej_bam.iter().map(|x| x.0).collect::<Vec<_>>());
+            }
+            if case.apis.contains(&sam_api) {
+                report("lazy SAM records", &rej_sam.iter().map(|x| x.0).collect::<Vec<_>>());
+            }
+            let n_rej = rej_bufs.len().max(rej_bam.len()).max(rej_sam.len());
+            if n_rej == 0 {
+                return out;
+            }
+            for (shape, steps) in shapes(n_rej, good_bufs.len()) {
+                let (b, cb) = lay(&steps, &good_bufs, &rej_bufs);
+                let (bl, cbl) = lay(&steps, &good_bam, &rej_bam);
+                let (sl, csl) = lay(&steps, &good_sam, &rej_sam);
+                let cause = case
+                    .apis
+                    .iter()
+                    .map(|&api| match (case.format, api) {
+                        (_, 0) => cb.clone(),
+                        (Format::Bam, 1 | 2) => cbl.clone(),
+                        _ => csl.clone(),
+                    })
+                    .collect();
+                out.push(RScript { shape, cause, content: Content::Aln { header: header.clone(), bufs: b, bam: bl, sam: sl }, sync: Vec::new() });
+            }
+        }
+        Content::Var { header, bufs, vcf, bcf } => {
+            if bufs.len() < 2 {
+                return out;
+            }
+            let good_bufs: Vec<_> = bufs.iter().take(4).cloned().collect();
+            let good_vcf: Vec<_> = vcf.iter().take(4).cloned().collect();
+            let good_bcf: Vec<_> = bcf.iter().take(4).cloned().collect();
+            let h = header.clone();
+            let wrap_bufs = |v: Vec<vcf::variant::RecordBuf>| Content::Var { header: h.clone(), bufs: v, vcf: Vec::new(), bcf: Vec::new() };
+            let wrap_vcf = |v: Vec<vcf::Record>| Content::Var { header: h.clone(), bufs: Vec::new(), vcf: v, bcf: Vec::new() };
+            let wrap_bcf = |v: Vec<bcf::Record>| Content::Var { header: h.clone(), bufs: Vec::new(), vcf: Vec::new(), bcf: v };
+            let (cb, cl, cbl) = var_candidates(header, &bufs[0]);
+            let rej_bufs = probe(case, 0, cb, &wrap_bufs);
+            let (rej_vcf, rej_bcf) = if case.format == Format::Bcf { (Vec::new(), probe(case, 1, cbl, &wrap_bcf)) } else { (probe(case, 1, cl, &wrap_vcf), Vec::new()) };
+            report("owned records", &rej_bufs.iter().map(|x| x.0).collect::<Vec<_>>());
+            report("lazy records", &rej_vcf.iter().chain(std::iter::empty()).map(|x| x.0).chain(rej_bcf.iter().map(|x| x.0)).collect::<Vec<_>>());
+            let n_rej = rej_bufs.len().max(rej_vcf.len()).max(rej_bcf.len());
+            if n_rej == 0 {
+                return out;
+            }
+            for (shape, steps) in shapes(n_rej, good_bufs.len()) {
+                let (b, cb) = lay(&steps, &good_bufs, &rej_bufs);
+                let (vl, cvl) = lay(&steps, &good_vcf, &rej_vcf);
+                let (bl, cbl) = lay(&steps, &good_bcf, &rej_bcf);
+                let cause = case.apis.iter().map(|&api| if api == 0 { cb.clone() } else if case.format == Format::Bcf { cbl.clone() } else { cvl.clone() }).collect();
+                out.push(RScript { shape, cause, content: Content::Var { header: header.clone(), bufs: b, vcf: vl, bcf: bl }, sync: Vec::new() });
+            }
+        }
+        _ => {}
+    }
+    out
 }
